@@ -21,6 +21,12 @@ import concurrent.futures as cf
 
 VERIF = os.path.dirname(os.path.dirname(os.path.abspath(__file__)))
 REPO = os.path.realpath(os.environ.get("VERIF_REPO", "/repo"))
+
+
+def evidence_dir():
+    if REPO == "/repo":
+        return os.path.join(VERIF, "evidence")
+    return os.path.join("/dev/shm/verif-evidence", hashlib.md5(REPO.encode()).hexdigest()[:10])
 NCPU = int(os.environ.get("VERIF_JOBS", "16"))
 
 
@@ -293,8 +299,10 @@ class Check:
             "violations": self.nviol,
             "repo": REPO,
         }
-        os.makedirs(os.path.join(VERIF, "evidence"), exist_ok=True)
-        p = os.path.join(VERIF, "evidence", self.pid + ".json")
+        # evidence/ only ever describes /repo itself; runs against a scratch tree (VERIF_REPO) write elsewhere
+        evdir = evidence_dir()
+        os.makedirs(evdir, exist_ok=True)
+        p = os.path.join(evdir, self.pid + ".json")
         with open(p + ".tmp", "w") as f:
             json.dump(evd, f, indent=1, default=str)
         os.replace(p + ".tmp", p)
